@@ -403,6 +403,11 @@ DOWNREF:
 			return nil, ErrNoSchema(currentRef.String())
 		}
 
+		if root, isRoot := value.(*spec.Swagger); isRoot && root == sp {
+			// a pointer to the whole document is not a pointer to a schema (and would contain itself)
+			return nil, ErrNoSchema(currentRef.String())
+		}
+
 		switch refable := value.(type) {
 		case *spec.Schema:
 			if refable.Ref.String() == "" {
